@@ -33,9 +33,9 @@ AUDIT = {
         'assert!(start <= idx.len): both callers return Err unless stop <= idx.len and start <= stop (rule GD-4 checks that these guards dominate the calls)',
     'io::fasta::IndexedReader::<R>::seek_to|overflow-mul|Div(arg3,arg2.line_bases),arg2.line_bytes':
         'start / line_bases * line_bytes <= file size of the indexed FASTA, which fits u64',
-    'io::fasta::IndexedReader::<R>::seek_to|overflow-add|Mul(Div(arg3,arg2.line_bases),arg2.line_bytes).0,arg2.offset':
+    'io::fasta::IndexedReader::<R>::seek_to|overflow-add|P[Div(arg3,arg2.line_bases)*arg2.line_bytes].0,arg2.offset':
         'file offsets of an existing file fit u64',
-    'io::fasta::IndexedReader::<R>::seek_to|overflow-add|Add(Mul(Div(arg3,arg2.line_bases),arg2.line_bytes).0,arg2.offset).0,Rem(arg3,arg2.line_bases)':
+    'io::fasta::IndexedReader::<R>::seek_to|overflow-add|P[Div(arg3,arg2.line_bases)*arg2.line_bytes + arg2.offset].0,Rem(arg3,arg2.line_bases)':
         'file offsets of an existing file fit u64',
     "io::fasta::IndexedReaderIterator::<'a, R>::fill_buffer|explicit-panic|panic(lit)<>":
         'assert!(self.bases_left > 0): the only caller (next) calls it on the edge bases_left > 0 (checked by GD-4)',
